@@ -56,6 +56,10 @@ type options struct {
 
 	activeFields *fieldSet
 
+	// cycles counts the cyclic references detected so far. It is shared by
+	// all copies of the options made during one call.
+	cycles *int
+
 	ignoreCommas bool
 }
 
@@ -278,6 +282,7 @@ func makeOptions(opts []Option) *options {
 		parsed:       map[string]spliceValue{},
 		activeFields: newFieldSet(nil),
 		maxIdx:       defaultMaxIdx,
+		cycles:       new(int),
 	}
 	for _, opt := range opts {
 		opt(&o)
